@@ -27,8 +27,17 @@ impl Instant {
     pub fn checked_add(&self, d: Duration) -> Option<Instant> {
         self.0.checked_add(d.as_nanos() as u64).map(Instant)
     }
+    pub fn checked_sub(&self, d: Duration) -> Option<Instant> {
+        self.0.checked_sub(d.as_nanos().min(u64::MAX as u128) as u64).map(Instant)
+    }
     pub fn as_nanos(&self) -> u64 {
         self.0
+    }
+}
+
+impl std::ops::SubAssign<Duration> for Instant {
+    fn sub_assign(&mut self, d: Duration) {
+        *self = *self - d;
     }
 }
 
